@@ -80,6 +80,10 @@ P = {
          "call-shape contracts (partial): Verus proves on the real text of all 41 capture impls and the 15 __private_capture_* hooks of src/macro_hooks.rs that every hook reaches exactly its mode's trait and every mode calls exactly its value-bag constructor on the value itself (capture_* typed vs from_* anonymous distinguished), that Option captures and the optional-map hooks yield nothing for None and exactly one map call for Some, on core/src/value.rs that the Value constructors, by_ref, to_owned/to_shared, downcast/borrow accessors and the written-out ToValue/FromValue impls hand the bag on unchanged, and on macros/src that the attribute -> hook-identifier table (hooks(), capture_as, default_fn_name, rename closures) is the documented one; a change that rewires a mode, hook or conversion fails a named obligation",
          "partial: the MEANING of each value-bag / sval / serde constructor (typed pull-back, exact formatting, structure, source chain) is the dependencies' and is trusted; macro_rules!-generated primitive conversions, quote! templates, the syn visitor and Value's own Display/sval/serde impls are not covered (specs/assumptions/C19.txt)",
          "contract-based deductive verification (Verus call-shape contracts on mechanically extracted functions)", "8 C19 / 13.8"),
+ "C20": (True, "proof",
+         "Verus proves on the real text of AmbientSlot::{new, is_enabled, init, get} and the AmbientInternalSlot forwarders (core/src/runtime.rs), against a ghost model of std::sync::OnceLock as a linearizable single-assignment cell in which EVERY access is preceded by rely-bounded interference of other threads: init returns Some iff one of its own steps installed the value (then the cell holds exactly the five erased components of its one argument and the returned runtime refers to them), returns None with the cell unchanged otherwise, and calls no component method; get / is_enabled report the cell at their read or the constant all-Empty runtime; pure lemmas over all interleavings of such steps: at most (exactly) one winner, every observer after the first enabled observation sees the same five components, a losing initialiser's components are never observed; the real Empty impls of Emitter / Filter / Ctxt / Clock / Rng are proved inert (no effect, flush true, no readings); Setup::try_init_slot / init_slot (emit_setup) assume the same clause text; three complete Kani harnesses cover the uninitialised slot through the real constant and dyn dispatch (nothing emitted, nothing panics, flush true)",
+         "trusted: OnceLock step semantics (std), the rely condition (only AmbientSlot's methods touch the cell; each proved within the rely), the dyn / raw-pointer erasure stubs (R10) incl. the unsafe deref in get, the nested EMPTY constant in the Verus unit (exercised by Kani); schedules are quantified by the rely/guarantee argument, not executed",
+         "contract-based deductive verification (Verus on mechanically extracted functions with a rely/guarantee OnceLock model + history lemmas; Kani for the inert slot)", "8 C20 / 13.8"),
  "C15": (True, "proof",
          "Verus proves, for every input, the contracts of the real calendar/format/parse functions extracted from /repo on each run; "
          "a code change that breaks a contract fails a named obligation; Kind parser / Display round trip, Value::parse (visitor callbacks) and as_f64 fallback order, id hex codecs and flags (Kani, complete over all lengths that pass the length test)",
